@@ -110,6 +110,19 @@ CHECKS = {
              'member, constraint violation); encode with checks must raise EncodeError/ConstraintsError whose text starts with the dotted path to that '
              'component as computed from my AST; well-typed base values must pass the type check.',
         note='A type-name hop inserted for recursive types is forgiven; base values that a codec cannot encode are skipped for that codec.'),
+    'C02': dict(
+        category='exploration', design_ref='DESIGN.md 4 C02',
+        technique='runtime monitoring: two-reader oracle (independent strict JSON / expat + type-directed JER / BASIC-XER readers, and the library decoder) over generated values, 4 indent settings',
+        text='Every JER/XER document the library emits for generated values (markup-significant strings, REALs of all magnitudes and infinities, lists of '
+             'value-form elements) is parsed by an independent reader driven by my AST and by the library decoder; both must give back the value, REALs '
+             'compared by IEEE bit pattern.',
+        note='JSON strictness = Python json with constants, duplicate names and lone surrogates rejected; XML = expat; time types only by library round trip.'),
+    'C20': dict(
+        category='exploration', design_ref='DESIGN.md 4 C20',
+        technique='runtime monitoring: independent RFC 3641 reader (type-directed by my AST) reads every emitted text back; collision table for injectivity',
+        text='Each GSER text (compact and indented) is consumed completely by my RFC 3641 reader and must yield the encoded value; texts of different '
+             'values of a type are checked for collisions.',
+        note='The reader is lenient about white-space between tokens, strict about tokens; NaN (no GSER form) may be refused by the encoder.'),
 }
 
 NOT_YET = 'check under construction in this revision (DESIGN.md section 4); not claimed yet'
